@@ -1037,7 +1037,7 @@ func main() {
 		replay(run.Replay)
 		return
 	}
-	n := run.Scale(260, 5000)
+	n := run.Scale(1200, 12000)
 	for i := 0; i < n; i++ {
 		generateHistory(run.Seed, i, run.Thorough())
 	}
